@@ -465,14 +465,16 @@ func (s *Script) ScriptType() string {
 	if s.IsP2PKH() {
 		return ScriptTypePubKeyHash
 	}
+	// data carrier scripts are recognised by their prefix alone: check them before
+	// the templates that tokenise the script, which cannot tell pushed data from opcodes
+	if s.IsData() {
+		return ScriptTypeNullData
+	}
 	if s.IsP2PK() {
 		return ScriptTypePubKey
 	}
 	if s.IsMultiSigOut() {
 		return ScriptTypeMultiSig
-	}
-	if s.IsData() {
-		return ScriptTypeNullData
 	}
 	if s.IsP2PKHInscription() {
 		return ScriptTypePubKeyHashInscription
